@@ -318,6 +318,54 @@ fn step_poll_recv(cap: usize, nr: usize, already: bool) {
   kani::cover!(true, "END");
 }
 
+/// poll_recv_batch_internal: the batch twin of poll_recv.  Ready(Ok(k)) takes the oldest k = min(max, n) values in
+/// order; Pending <=> empty with a sender alive, and then exactly one WAITING record for this future holds the
+/// LATEST waker (a re-poll replaces the stored waker, it never adds a second record nor keeps a stale one).
+fn step_poll_recv_batch(cap: usize, nr: usize, already: bool) {
+  let sh = MpmcShared::<u8>::new(cap);
+  let m = WMem::new();
+  let s = any_state(&sh, &m, nr, 0);
+  let my = AtomicU8::new(kani::any());
+  let my_ptr: *const AtomicU8 = if already { &m.rs[0] as *const AtomicU8 } else { &my as *const AtomicU8 };
+  if already { kani::assume(s.r_wait[0]); }
+  let w = waker(3);
+  let mut cx = Context::from_waker(&w);
+  let max: usize = kani::any();
+  kani::assume(max >= 1 && max <= 2);
+  let mut out: Vec<u8> = Vec::new();
+  let res = sh.poll_recv_batch_internal(&mut cx, my_ptr, &mut out, max);
+  assert!(sh.k_wf());
+  assert!(sh.k_counts() == (s.sc, s.rc));
+  let (_v, n2) = sh.k_view();
+  match res {
+    Poll::Ready(Ok(k)) => {
+      let want = if s.n < max { s.n } else { max };
+      assert!(s.n > 0 && k == want && out.len() == k && n2 == s.n - k);
+      assert!(out[0] == s.items[0]);
+      if k == 2 { assert!(out[1] == s.items[1]); }
+      assert!(sh.k_nr() == nr);
+      kani::cover!(true);
+    }
+    Poll::Ready(Err(RecvError::Disconnected)) => {
+      assert!(s.n == 0 && s.sc == 0 && n2 == 0 && out.is_empty());
+      assert!(sh.k_nr() == nr);
+      kani::cover!(true);
+    }
+    Poll::Pending => {
+      assert!(s.n == 0 && s.sc > 0 && n2 == 0 && out.is_empty());
+      assert!(unsafe { (*my_ptr).load(Ordering::Relaxed) } == STATE_WAITING);
+      if already {
+        assert!(sh.k_nr() == nr && sh.k_r_ptr(0) == my_ptr);
+      } else {
+        assert!(sh.k_nr() == nr + 1 && sh.k_r_ptr(nr) == my_ptr);
+      }
+      assert!(wakes(3) == 0 && waker_refs(3) == 1); // exactly one clone of MY (latest) waker is held by the queue
+      kani::cover!(true);
+    }
+  }
+  kani::cover!(true, "END");
+}
+
 /// Teardown: every buffered value is dropped exactly once when the shared core is dropped.
 fn step_drop_once(cap: usize) {
   let sh = MpmcShared::<D>::new(cap);
@@ -605,3 +653,39 @@ fn ob_mpmc_core_try_recv_batch_cap3s1m1() { step_try_recv_batch(3, 1, 1); }
 #[kani::stub(crate::sync::mutex::HybridMutex::lock_slow, stub_hm_lock_slow)]
 #[kani::unwind(8)]
 fn ob_mpmc_core_try_recv_batch_cap3s1m2() { step_try_recv_batch(3, 1, 2); }
+
+// @obligation id=mpmc.core.poll_recv_batch.cap1r0 props=C06,C01,C02 kind=step tier=quick bound="logical capacity 1, 0 async receiver waiter(s) (WAITING or CANCELLED); head any usize; buffered values any u8; counts any <=2; max in 1..=2"
+#[kani::proof]
+#[kani::stub(std::thread::current::current, crate::verif_k_stubs::stub_thread_current)]
+#[kani::stub(parking_lot::RawMutex::lock_slow, crate::verif_k_stubs::stub_lock_slow)]
+#[kani::stub(parking_lot::RawMutex::unlock_slow, crate::verif_k_stubs::stub_unlock_slow)]
+#[kani::stub(crate::sync::mutex::HybridMutex::lock_slow, stub_hm_lock_slow)]
+#[kani::unwind(8)]
+fn ob_mpmc_core_poll_recv_batch_cap1r0() { step_poll_recv_batch(1, 0, false); }
+
+// @obligation id=mpmc.core.poll_recv_batch.cap1r1re props=C06,C01,C02 kind=step tier=quick bound="logical capacity 1, 1 async receiver waiter(s) (WAITING or CANCELLED); this future already queued (re-poll with a new waker); head any usize; buffered values any u8; counts any <=2; max in 1..=2"
+#[kani::proof]
+#[kani::stub(std::thread::current::current, crate::verif_k_stubs::stub_thread_current)]
+#[kani::stub(parking_lot::RawMutex::lock_slow, crate::verif_k_stubs::stub_lock_slow)]
+#[kani::stub(parking_lot::RawMutex::unlock_slow, crate::verif_k_stubs::stub_unlock_slow)]
+#[kani::stub(crate::sync::mutex::HybridMutex::lock_slow, stub_hm_lock_slow)]
+#[kani::unwind(8)]
+fn ob_mpmc_core_poll_recv_batch_cap1r1re() { step_poll_recv_batch(1, 1, true); }
+
+// @obligation id=mpmc.core.poll_recv_batch.cap3r1 props=C06,C01,C02 kind=step tier=quick bound="logical capacity 3, 1 async receiver waiter(s) (WAITING or CANCELLED); head any usize; buffered values any u8; counts any <=2; max in 1..=2"
+#[kani::proof]
+#[kani::stub(std::thread::current::current, crate::verif_k_stubs::stub_thread_current)]
+#[kani::stub(parking_lot::RawMutex::lock_slow, crate::verif_k_stubs::stub_lock_slow)]
+#[kani::stub(parking_lot::RawMutex::unlock_slow, crate::verif_k_stubs::stub_unlock_slow)]
+#[kani::stub(crate::sync::mutex::HybridMutex::lock_slow, stub_hm_lock_slow)]
+#[kani::unwind(8)]
+fn ob_mpmc_core_poll_recv_batch_cap3r1() { step_poll_recv_batch(3, 1, false); }
+
+// @obligation id=mpmc.core.poll_recv_batch.cap3r1re props=C06,C01,C02 kind=step tier=thorough bound="logical capacity 3, 1 async receiver waiter(s) (WAITING or CANCELLED); this future already queued (re-poll with a new waker); head any usize; buffered values any u8; counts any <=2; max in 1..=2"
+#[kani::proof]
+#[kani::stub(std::thread::current::current, crate::verif_k_stubs::stub_thread_current)]
+#[kani::stub(parking_lot::RawMutex::lock_slow, crate::verif_k_stubs::stub_lock_slow)]
+#[kani::stub(parking_lot::RawMutex::unlock_slow, crate::verif_k_stubs::stub_unlock_slow)]
+#[kani::stub(crate::sync::mutex::HybridMutex::lock_slow, stub_hm_lock_slow)]
+#[kani::unwind(8)]
+fn ob_mpmc_core_poll_recv_batch_cap3r1re() { step_poll_recv_batch(3, 1, true); }
